@@ -17,6 +17,11 @@ def extract(ctx):
     extract_prec(ctx)
     from extract.lex import extract_lex
     extract_lex(ctx)
+    # T-gen of the printer: lean/PV/Generated/Stringifier.lean from the live source of
+    # StringifyMapper (handler bodies, helpers, dispatch); an unreadable handler raises here and is
+    # reported by the check as a broken obligation
+    from extract.stringifier import extract_stringifier
+    extract_stringifier(ctx)
 
 
 def kind(e):
@@ -210,6 +215,26 @@ def offender(m):
     return ",".join(sorted({kind(c) for c in kids}))
 
 
+def _order_cases():
+    """which child is printed FIRST decides which exception surfaces: `map_subscript` prints the
+    index before the aggregate, `map_call_with_kwargs` the arguments before the callee (found by
+    reading the handler bodies into the table; the model used to print aggregate / callee first)"""
+    w, a = p.DotWildcard("x"), p.Variable("a")
+    kw = immutabledict
+    return [p.Subscript(None, w), p.Subscript(w, None), p.Subscript(None, (w,)), p.Subscript(w, (None,)),
+            p.Subscript(None, (a, w)), p.CallWithKwargs(None, (w,), kw()), p.CallWithKwargs(w, (None,), kw()),
+            p.CallWithKwargs(None, (), kw({"k": w})), p.CallWithKwargs(w, (), kw({"k": None})),
+            p.CallWithKwargs(a, (w,), kw({"k": None})), p.CallWithKwargs(a, (None,), kw({"k": w})),
+            p.Call(None, (w,)), p.Call(w, (None,)), p.If(None, w, a), p.If(w, None, a), p.If(a, w, None),
+            p.If(a, None, w), p.Quotient(None, w), p.Quotient(w, None), p.Power(None, w), p.Power(w, None),
+            p.Comparison(None, "<", w), p.Comparison(w, "<", None), p.Sum((None, w)), p.Sum((w, None)),
+            p.Product((None, w)), p.Slice((None, w, "s")), p.Slice((w, None, "s")), (None, w), (w, "s"),
+            [w, "s"], ["s", w], p.Lookup(None, "n"), p.LeftShift(None, w), p.LeftShift(w, None)]
+
+
+ORDER_CASES = _order_cases()
+
+
 class PrintStream(Stream):
     """str(e) of the real stringifier vs the model (string AND the token list the real lexer makes
     of it), plus the round-trip oracle on the real code"""
@@ -269,6 +294,23 @@ class PrintStream(Stream):
     def stats(self, pl, mo, io, acc):
         k = pl["src"].split(":")[0]
         acc[k] = acc.get(k, 0) + 1
+
+
+class PrintOrderStream(PrintStream):
+    """objects OUTSIDE the text syntax (so: no round-trip oracle) in two child positions at once:
+    the exception the real printer raises says which child it printed first; the model must
+    raise the same one"""
+    name = "print-order"
+
+    def cases(self, rng, tier):
+        for e in ORDER_CASES:
+            yield {"expr": dumps(expr_to_sx(e)), "src": "directed"}
+
+    def oracle(self, pl):
+        return None
+
+    def nontrivial_key(self, pl, model, impl):
+        return pl["expr"]
 
 
 class ParseStream(Stream):
@@ -604,6 +646,152 @@ class StringFragmentStream(Stream):
         acc[k] = acc.get(k, 0) + 1
 
 
+# {{{ T-gen of the printer (extract/stringifier.py, PV/Model/StrTable.lean)
+
+def _table_trees(rng, tier):
+    from ..gen import ExprGen
+    for i, (tag, e) in enumerate(two_level()):
+        if tier != "quick" or i % 3 == 0:
+            yield "two-level", e
+    a, b, f = p.Variable("a"), p.Variable("b"), p.Variable("f")
+    directed = [
+        p.Derivative(p.Sum((f, 1)), ("x", "y")), p.Derivative(f, ()), p.Derivative(p.Quotient(a, b), ("x",)),
+        p.Product((p.Derivative(f, ("x",)), a)), p.Power(p.Derivative(f, ("x",)), 2),
+        p.Substitution(p.Sum((f, 1)), ("x", "y"), (1, p.Product((b, 2)))), p.Substitution(f, (), ()),
+        p.Substitution(f, ("x", "y"), (a,)), p.Substitution(f, ("x",), (a, b)),
+        p.Product((p.Substitution(f, ("x",), (p.If(a, b, f),)), a)),
+        p.Min((a, p.Max((b, 1)))), p.Min((a,)), p.Max(()), p.Sum((p.Min((a, b)), 1)),
+        p.CommonSubexpression(p.Sum((a, b)), "pf"), p.Product((p.CommonSubexpression(p.Quotient(a, b)), b)),
+        p.Quotient(p.CommonSubexpression(p.Product((a, b))), b),
+        p.Wildcard(), p.DotWildcard("x"), p.StarWildcard("x"), p.FunctionSymbol(), p.NaN(),
+        p.Call(p.FunctionSymbol(), (a,)), p.Sum((p.NaN(), p.Wildcard())),
+        (a,), (), (a, b), [a], [], [(a,)], ((a,),), p.Call(f, ((a,),)), p.Subscript(a, (b,)), p.Subscript(a, ()),
+        p.Subscript(a, [b, f]), p.Subscript(a, p.Slice((None, None))), p.Subscript(a, p.Slice(())),
+        p.Subscript(a, p.Slice((None,))), p.Slice((a, None, b)), p.Sum((p.Slice((a, b)), 1)),
+        -1, 1, True, False, -2.5, 1e-05, 1e+20, -1e-07, p.Power(-1, a), p.Power(a, -1), p.Power(1e-05, a),
+        p.Power(-2.5, a), p.Sum((-1, a)), p.Product((-1, a)), p.Quotient(-1, 1e+20), p.BitwiseNot(-1),
+        p.LogicalNot(True), p.Call(-1, (-2,)), p.Subscript(-1, -2), p.Lookup(-1, "u"), p.Comparison(-1, "<", -2),
+        p.LeftShift(-1, -2), p.If(-1, -2, -3),
+        p.Sum(()), p.Product(()), p.Sum((a,)), p.BitwiseOr(()), p.LogicalAnd((a,)),
+        p.CallWithKwargs(f, (a,), immutabledict({"k": b, "l": p.If(a, b, f)})),
+        p.CallWithKwargs(f, (), immutabledict()), "s", None, p.Sum((a, None)), p.Sum((a, "s")),
+    ]
+    for e in directed + ORDER_CASES:
+        yield "directed", e
+    g = SyntaxGen(rng)
+    for _ in range(500 if tier == "quick" else 6000):
+        yield "syntax", g.gen(rng.randint(1, 7))
+    eg = ExprGen(rng, malformed=0.04)
+    for _ in range(1100 if tier == "quick" else 12000):
+        yield "all-nodes", eg.gen(rng.choice(["num", "int", "bool", "any", "any"]), rng.randint(1, 5))
+
+
+class TableStrStream(Stream):
+    """the table-driven printer `c06tStr` (every handler of the regenerated table run by the
+    compiled interpreter, `Substitution` / `Derivative` included) vs the real printer, on the
+    STRING: ties the reader extract/stringifier.py and the meaning of the handler language to the
+    code.  No separate oracle: the round-trip oracle of the `print` stream judges the strings."""
+    name = "table-str"
+
+    def cases(self, rng, tier):
+        for src, e in _table_trees(rng, tier):
+            try:
+                sx = dumps(expr_to_sx(e))
+            except Exception:
+                continue
+            yield {"expr": sx, "src": src}
+
+    def request(self, pl):
+        return f"(c06t-str false {pl['expr']})"
+
+    def run_impl(self, pl):
+        e = sx_to_expr(loads(pl["expr"]))
+        try:
+            s = to_str(e)
+        except Exception as ex:
+            return dumps(exc_to_sx(ex))
+        return q(s)
+
+    def agree(self, model, impl, pl):
+        if model.startswith("(noclaim"):
+            return "trivial"
+        if model.startswith("(err"):
+            return "ok" if model == impl else "diff"
+        m = loads(model)
+        return "ok" if isinstance(m, list) and m and q(m[0]) == impl else "diff"
+
+    def shrink(self, pl):
+        for s in sx_shrinks(loads(pl["expr"])):
+            yield {**pl, "expr": dumps(s)}
+
+    def nontrivial_key(self, pl, model, impl):
+        return pl["expr"] if not impl.startswith("(err") else None
+
+    def stats(self, pl, mo, io, acc):
+        acc[pl["src"]] = acc.get(pl["src"], 0) + 1
+        if io.startswith("(err"):
+            acc["raises"] = acc.get("raises", 0) + 1
+
+
+def _dispatch_probe():
+    """a StringifyMapper whose every handler only reports its (attribute) name: which handler the
+    REAL `Mapper.__call__` / `map_foreign` reaches for an object"""
+    import inspect
+
+    from pymbolic.mapper.stringifier import StringifyMapper
+
+    def mk(name):
+        def handler(self, expr, *args, **kwargs):
+            return name
+        return handler
+    ns = {n: mk(n) for n in dir(StringifyMapper)
+          if n.startswith("map_") and n != "map_foreign" and inspect.isfunction(getattr(StringifyMapper, n))}
+    return type("DispatchProbe", (StringifyMapper,), ns)
+
+
+class TableDispatchStream(Stream):
+    """the handler the regenerated table sends an object to vs the handler the real dispatch
+    reaches (every node class of the IR, every foreign kind)"""
+    name = "table-dispatch"
+
+    def cases(self, rng, tier):
+        from ..gen import ExprGen
+        seen = set()
+        eg = ExprGen(rng, malformed=0.05)
+        trees = [e for _, e in _table_trees(rng, "quick")][:400]
+        trees += [eg.gen("any", 2) for _ in range(300)]
+        for e in trees:
+            k = type(e).__name__
+            if k in seen and rng.random() < 0.9:
+                continue
+            seen.add(k)
+            try:
+                yield {"expr": dumps(expr_to_sx(e)), "kind": k}
+            except Exception:
+                continue
+
+    def request(self, pl):
+        return f"(c06t-dispatch {pl['expr']})"
+
+    def run_impl(self, pl):
+        from pymbolic.mapper.stringifier import PREC_NONE
+        e = sx_to_expr(loads(pl["expr"]))
+        try:
+            return f"(handler {_dispatch_probe()()(e, PREC_NONE)})"
+        except ValueError as ex:
+            return "(foreign-error ValueError)" if "invalid foreign object" in str(ex) else dumps(exc_to_sx(ex))
+        except Exception as ex:
+            return dumps(exc_to_sx(ex))
+
+    def nontrivial_key(self, pl, model, impl):
+        return pl["kind"]
+
+    def stats(self, pl, mo, io, acc):
+        acc[pl["kind"]] = acc.get(pl["kind"], 0) + 1
+
+# }}}
+
+
 def probe_lexical():
     """the lexical findings, replayed on the real code: `1.u` (known) and the repaired `True` /
     `False` rules without `\\b` (fixed: a VIOLATION if the defect returns)"""
@@ -625,16 +813,20 @@ def probe_lexical():
 PROP = Prop(
     id="C06",
     title="Printing an expression and parsing the text gives the expression back",
-    lean_targets=["PV.Properties.C06"],
+    lean_targets=["PV.Properties.C06", "PV.Properties.C06Table"],
     extractors=[extract],
-    streams=[PrintStream(), ParseStream(), FragmentStream(), LexRawStream(), LexTokStream(),
-             ParseStringStream(), StringFragmentStream()],
+    streams=[PrintStream(), PrintOrderStream(), ParseStream(), FragmentStream(), LexRawStream(), LexTokStream(),
+             ParseStringStream(), StringFragmentStream(), TableStrStream(), TableDispatchStream()],
     probes=[probe_lexical],
     trusted_base=["Lean 4.33 kernel; axioms propext, Classical.choice, Quot.sound only",
                   "the lexer is modelled (PV/Model/Lexer.lean) and run on the rule table regenerated "
                   "by extract/lex.py; Python's `re` (the meaning of the eight character-class "
                   "expressions), `float()` and `repr(float)` are tied by the lex-raw / lex-tokens "
                   "streams only",
-                  "extract/prec.py (precedence constants read from the live modules)"],
+                  "extract/prec.py (precedence constants read from the live modules)",
+                  "extract/stringifier.py (the reader of the printer's handler bodies) and the meaning "
+                  "of the handler language (PV/Model/StrTable.lean: literal text / str(constant) / "
+                  "attribute strings as printer pieces) are tied by the table-str / table-dispatch "
+                  "streams: the compiled table interpreter on the regenerated table vs the real printer"],
     design_ref="DESIGN.md §4 C06",
 )
